@@ -16,6 +16,7 @@ CONSTANTS
   MaxRet = 4
   DistinctRets = FALSE
   MaxUnionArgs = 1
+  EmitOneIn = 1
 INVARIANT PropertyHolds
 INVARIANT EmitDone
 CHECK_DEADLOCK FALSE
